@@ -44,6 +44,7 @@ type Solver struct {
 	timeout int // ms per query
 	logf    *os.File
 	dead    bool
+	npaths  int
 }
 
 var solverArgs = map[string][]string{
@@ -103,7 +104,10 @@ func (s *Solver) send(line string) {
 
 // BeginPath opens a fresh scope.
 func (s *Solver) BeginPath() {
-	if s.dead {
+	// a long-lived z3 process does not give back the memory of popped scopes
+	// (observed: 9 GB after some 100k paths): recycle it regularly
+	s.npaths++
+	if s.dead || s.npaths%300 == 0 {
 		s.Close()
 		s.start()
 	}
